@@ -27,8 +27,9 @@ type intrinsicFn func(fr *frame, args []value) value
 type fnInfo struct {
 	kind fnKind
 	h    intrinsicFn
-	stub *ssa.Function
-	name string
+	stub    *ssa.Function
+	stubTag string
+	name    string
 }
 
 // packages whose calls have no effect on piko state (logging, metrics, JSON
@@ -49,7 +50,7 @@ var interpPkgs = []string{
 	"math", "math/bits", "net", "net/netip", "net/textproto", "net/url",
 	"internal/bytealg", "internal/stringslite", "internal/itoa", "errors",
 	"internal/byteorder", "cmp", "maps", "iter", "net/http", "io", "path",
-	"golang.org/x/net/http/httpguts",
+	"golang.org/x/net/http/httpguts", "bufio",
 }
 
 func (e *Engine) isOpaquePkg(path string) bool {
@@ -81,8 +82,14 @@ func (e *Engine) classify1(fn *ssa.Function) *fnInfo {
 		base = fn.Origin().String()
 	}
 	if stub, ok := e.stubs[base]; ok {
-		info.kind, info.stub = fkStub, stub
-		return info
+		// a stub may be conditional on a path tag (set by the harness with
+		// v.Tag); the unconditional classification is kept as the fallback
+		info.stub = stub
+		info.stubTag = e.stubTags[base]
+		if info.stubTag == "" {
+			info.kind = fkStub
+			return info
+		}
 	}
 	if h, ok := intrinsics[base]; ok {
 		info.kind, info.h = fkIntrinsic, h
